@@ -251,6 +251,11 @@ def run(F, R, tier):
             R.check(touched == {want}, "C09.R2", "C09.R2:%s:arm:%s" % (act["id"], vname), q.where(BA, entry),
                     "actor arm %s touches only `%s`" % (vname, want), "actor arm %s touches %s (expected %s)" % (vname, sorted(touched), want))
         R.floor("C09.R2", n_arm, 12, "endpoint-specific actor arms (Set/Get x RuleId/Rules x 3)")
+        # the two cells the loop's decisions read back: the key and the channel state
+        from lib import contracts
+        contracts.actor_cell(F, R, "C09.R2", BA, arms, "key", "SetKey", "key", "GetKey", "key keeper actor")
+        contracts.actor_cell(F, R, "C09.R2", BA, arms, "current_secure_channel_state", "SetSecureChannelState", "state", "GetSecureChannelState",
+                             "key keeper actor")
     # wrapper functions send the variant of their own endpoint
     for fid, fn in F.fns.items():
         if not fid.startswith(KW + "KeyKeeperSharedState::") or not fid.endswith("::{closure#0}"):
@@ -320,6 +325,60 @@ def run(F, R, tier):
     p = B.path([0], keyblock, cut_edges=dis_false)
     R.check(bool(dis_false) and bool(keyblock) and p is None, "C09.R3", "C09.R3:%s:key-block-when-enabled" % LP, "-",
             "fetch_key / acquire_key are reachable only through a 'state != DISABLE_STATE' edge")
+
+    # helper contract: update_current_secure_channel_state reports "updated" exactly when the stored state differs, and stores the new one
+    uc = F.body_of(KW + "KeyKeeperSharedState::update_current_secure_channel_state")
+    if not uc:
+        R.fail("C09.R3", "C09.R3:anchor-missing:update_current_secure_channel_state", "-", "anchor-missing=update_current_secure_channel_state")
+    else:
+        R.touched(uc["id"])
+        BU = mir.Body(uc, F)
+        eqs = []
+        for sb, tr, fa, cb, args in q.bool_call_edges(BU, ["eq", "ne"]):
+            oa = [BU.origins(a) for a in args]
+            cur = [all(o[0] == "call" and q.ends(o[1], "get_current_secure_channel_state") for o in x) and bool(x) for x in oa]
+            new = [all(o[0] == "param" and o[1] == "state" for o in x) and bool(x) for x in oa]
+            if (cur[0] and new[1]) or (cur[1] and new[0]):
+                is_eq = q.ends(mir.callee_of(BU.blocks[cb]["term"])[0], "eq")
+                eqs.append((tr, fa) if is_eq else (fa, tr))
+        sets = [c[0] for c in BU.calls_named("KeyKeeperSharedState::set_secure_channel_state")]
+        oks = {}
+        for bi, blk in enumerate(BU.blocks):
+            for s in blk["stmts"]:
+                if s["k"] == "assign" and s["lhs"]["l"] == 0 and s["rv"]["k"] == "agg" and s["rv"].get("variant") == "Ok":
+                    o = s["rv"]["ops"][0]
+                    oks.setdefault(o.get("val") if o["k"] == "const" else "?", []).append(bi)
+        okc = len(eqs) == 1 and len(sets) == 1 and set(oks) == {0, 1}
+        if okc:
+            same, diff = eqs[0]
+            okc = BU.path([0], oks[0], cut_edges=[same]) is None and BU.path([0], sets + oks[1], cut_edges=[diff]) is None \
+                and BU.path([diff[1]], oks[1], cut_blocks=sets) is None
+            so = BU.origins(BU.blocks[sets[0]]["term"]["args"][1])
+            okc = okc and bool(so) and all(o[0] == "param" and o[1] == "state" for o in so)
+        R.check(okc, "C09.R3", "C09.R3:%s:contract" % uc["id"], "%s:%s" % (uc["file"], uc["line"]),
+                "update_current_secure_channel_state: Ok(false) only when the stored state equals the new one; otherwise the new state is "
+                "stored and Ok(true) returned",
+                "update_current_secure_channel_state no longer has that shape (comparisons %d, stores %d, Ok values %s)" % (len(eqs), len(sets), sorted(map(str, oks))))
+    for nm, want in (("update_key", "Some"), ("clear_key", "None")):
+        wf = F.body_of(KW + "KeyKeeperSharedState::" + nm)
+        if not wf:
+            R.fail("C09.R3", "C09.R3:anchor-missing:%s" % nm, "-", "anchor-missing=KeyKeeperSharedState::%s" % nm)
+            continue
+        BW = mir.Body(wf, F)
+        R.touched(wf["id"])
+        cs = BW.calls_named("KeyKeeperSharedState::set_key")
+        v = q.operand_variant(BW, cs[0][3]["args"][1]) if len(cs) == 1 else None
+        okw = bool(v) and v[1] == want
+        if okw and want == "Some":
+            for o in BW.origins(cs[0][3]["args"][1]):
+                if o[0] == "agg":
+                    blk = BW.blocks[o[2]]
+                    for s in blk["stmts"]:
+                        if s["k"] == "assign" and s["rv"]["k"] == "agg" and s["rv"].get("variant") == "Some":
+                            po = BW.origins(s["rv"]["ops"][0])
+                            okw = okw and bool(po) and all(x[0] == "param" and x[1] == "key" for x in po)
+        R.check(okw, "C09.R3", "C09.R3:%s:contract" % wf["id"], "%s:%s" % (wf["file"], wf["line"]),
+                "%s() = set_key(%s)" % (nm, "Some(key)" if want == "Some" else "None"), "%s passes %s to set_key" % (nm, v))
 
     # the change detector must read every status field a redirect decision reads (otherwise a flip of that field alone is never acted on)
     from lib import deps
